@@ -1040,6 +1040,21 @@ inductive NStmts
 end
 
 mutual
+def NStmt.beq : NStmt → NStmt → Bool
+  | .mk n1 b1 c1, .mk n2 b2 c2 => n1 == n2 && b1 == b2 && c1.beq c2
+def NCmd.beq : NCmd → NCmd → Bool
+  | .call a1, .call a2 => a1 == a2
+  | .subshell s1, .subshell s2 => s1.beq s2
+  | .block s1, .block s2 => s1.beq s2
+  | .binary o1 x1 y1, .binary o2 x2 y2 => o1 == o2 && x1.beq x2 && y1.beq y2
+  | _, _ => false
+def NStmts.beq : NStmts → NStmts → Bool
+  | .nil, .nil => true
+  | .cons s1 r1, .cons s2 r2 => s1.beq s2 && r1.beq r2
+  | _, _ => false
+end
+
+mutual
 def Stmt.norm : Stmt → NStmt
   | .mk _ _ neg bg cmd => .mk neg bg cmd.norm
 def Cmd.norm : Cmd → NCmd
@@ -1053,5 +1068,39 @@ def Stmts.norm : Stmts → NStmts
 end
 
 def File.norm (f : File) : NStmts := f.stmts.norm
+
+
+/-! ## The property's own statement, executable (used by the `spec` ops of the drivers) -/
+
+/-- C01 on one input: parse, print with `o`, parse again, compare norms. -/
+def specRoundTrip (o : Opts) (l : Lang) (src : Bytes) : String :=
+  match parse l src with
+  | .error .outside => "outside"
+  | .error _ => "noparse-src"
+  | .ok t =>
+    match printFile o t with
+    | .error .minifySingleLine => "refused"
+    | .error .panic => "panic"
+    | .ok b =>
+      match parse l b with
+      | .error _ => "reparse-fail"
+      | .ok t' => if t'.norm.beq t.norm then "same" else "diff"
+
+/-- C02 on one input: the second formatting pass reproduces the first. -/
+def specIdempotent (o : Opts) (l : Lang) (src : Bytes) : String :=
+  match parse l src with
+  | .error .outside => "outside"
+  | .error _ => "noparse-src"
+  | .ok t =>
+    match printFile o t with
+    | .error .minifySingleLine => "refused"
+    | .error .panic => "panic"
+    | .ok b =>
+      match parse l b with
+      | .error _ => "reparse-fail"
+      | .ok t' =>
+        match printFile o t' with
+        | .ok b' => if b' == b then "stable" else "unstable"
+        | .error _ => "panic"
 
 end ShVerif.L4
